@@ -302,7 +302,7 @@ def lens_str(lens):
 
 
 def build_scenario(scen, inp, ref, rundir, repaired_shape):
-    """ref: fault-free Run. Returns Scenario with .spec(repaired) -> model scenario string, .names, .nops, .ops"""
+    """ref: fault-free Run. Returns Scenario with .spec(vec) -> model scenario string (vec: checks vector), .names, .nops, .ops"""
     kind = SCENARIOS[scen][0]
     sc = Scenario()
     sc.kind, sc.scen = kind, scen
@@ -355,7 +355,8 @@ def build_scenario(scen, inp, ref, rundir, repaired_shape):
     sc.orig = open(inp["path"], "rb").read() if kind == "R" else b""
     sc.new = ref.files.get("outrep.pdf", b"") if kind == "R" else b""
 
-    def spec(repaired):
+    def spec(vec):
+        repaired = vec[5] == "1"     # ck_stdout: realmain's own fflush(stdout) is one more call
         if kind == "W":
             i = order[0]
             return "W!%d!%s!%s" % (i, lens_str(lens[i]), hexs(data(i)))
@@ -445,9 +446,21 @@ def faults_for(sc, chk, kinds=("full", "fail", "disk", "cap"), limit=None):
     return out
 
 
-def model_lines(sc, inp, faults, B, repaired, verbose=False, wx0=False):
-    return "%s %s %d %d %d %d %s %s %s" % ("c10trace" if verbose else "c10run", "1" if repaired else "0", B, EXIT_ROUNDS[0],
-                                            1 if inp["warn"] else 0, 1 if wx0 else 0, sc.spec(repaired), hexs(sc.orig), ",".join(faults))
+PINNED, REPAIRED = "000000", "111111"
+CHECK_NAMES = ["Pl_StdioFile::finish", "Writer::write fclose", "writeJSONStreamFile fclose", "writeJSON finish+close", "Pl_OStream::finish", "realmain stdout"]
+
+
+def vec_name(vec):
+    if vec == PINNED:
+        return "pinned (results of fflush/fclose/stream state not looked at)"
+    if vec == REPAIRED:
+        return "repaired (proposed_fixes/D2_output_errors.diff)"
+    return "partially repaired: checked = " + ", ".join(n for n, b in zip(CHECK_NAMES, vec) if b == "1")
+
+
+def model_lines(sc, inp, faults, B, vec, verbose=False, wx0=False):
+    return "%s %s %d %d %d %d %s %s %s" % ("c10trace" if verbose else "c10run", vec, B, EXIT_ROUNDS[0],
+                                            1 if inp["warn"] else 0, 1 if wx0 else 0, sc.spec(vec), hexs(sc.orig), ",".join(faults))
 
 
 # ------------------------------------------------------------------ the property on what the binary did
@@ -513,33 +526,40 @@ def evaluate(chk, runner, groups, B, pid="C10"):
     for g in groups:
         if "sc" in g and g["sc"].kind == "O" and g["inp"]["warn"]:
             g["sc"].nonwarn_trailing = base.get(g["scen"])
-    for g in groups:
-        if "sc" in g:
-            for rep in (False, True):
-                lines.append(model_lines(g["sc"], g["inp"], g["faults"], B, rep))
-    mout = common.run_lines(runner, lines, shards=1) if len(lines) < 3 else common.par_map(lambda l: common.run_lines(runner, [l])[0], lines, workers=WORKERS)
     slines = [x[3] for g in groups if "sc" in g for x in g["impl"]]
     sout = iter(common.run_lines(runner, slines))
-    mi = 0
-    diffs = {False: [], True: []}
     total = 0
     for g in groups:
-        if "sc" not in g:
-            continue
-        g["model"] = {}
-        for rep in (False, True):
-            outs = mout[mi].split(" ")
-            mi += 1
-            if len(outs) != len(g["faults"]):
-                raise common.InfraError("model runner failed on %s/%s: %s" % (g["scen"], g["input"], mout[mi - 1][:300]))
-            g["model"][rep] = outs
-            for j, o in enumerate(outs):
-                cmpo, flags = model_fields(o)
-                if cmpo != g["impl"][j][0]:
-                    diffs[rep].append((g, j, cmpo))
-        g["specv"] = [next(sout) for _ in g["impl"]]
-        total += len(g["impl"])
-    variant = False if len(diffs[False]) <= len(diffs[True]) else True
+        if "sc" in g:
+            g["specv"] = [next(sout) for _ in g["impl"]]
+            g["model"] = {}
+            total += len(g["impl"])
+    diffs = {}
+
+    def run_vectors(vecs):
+        lines = [model_lines(g["sc"], g["inp"], g["faults"], B, v) for g in groups if "sc" in g for v in vecs]
+        mout = common.run_lines(runner, lines, shards=1) if len(lines) < 3 else common.par_map(lambda l: common.run_lines(runner, [l])[0], lines, workers=WORKERS)
+        mi = 0
+        for v in vecs:
+            diffs[v] = []
+        for g in groups:
+            if "sc" not in g:
+                continue
+            for v in vecs:
+                outs = mout[mi].split(" ")
+                mi += 1
+                if len(outs) != len(g["faults"]):
+                    raise common.InfraError("model runner failed on %s/%s: %s" % (g["scen"], g["input"], mout[mi - 1][:300]))
+                g["model"][v] = outs
+                for j, o in enumerate(outs):
+                    cmpo, flags = model_fields(o)
+                    if cmpo != g["impl"][j][0]:
+                        diffs[v].append((g, j, cmpo))
+    run_vectors([PINNED, REPAIRED])
+    if min(len(d) for d in diffs.values()) > 0:
+        # neither the pinned nor the fully repaired sinks: is it a tree that performs some of the checks?
+        run_vectors([format(i, "06b") for i in range(1, 63)])
+    variant = min(sorted(diffs), key=lambda v: (len(diffs[v]), v != PINNED, v != REPAIRED, v))
     return variant, diffs, total
 
 
@@ -569,8 +589,8 @@ def report(chk, runner, groups, variant, diffs, B, pid="C10", sigprefix="C10"):
         vline = model_lines(g["sc"], g["inp"], [g["faults"][j]], B, variant, verbose=True)
         vout = common.run_lines(runner, [vline])[0]
         chk.violation({"kind": "correspondence-broken", "correspondence": "corr:%s:%s" % (pid, g["scen"]),
-                       "differing_cases": len(diffs[variant]), "differing_cases_other_vector": len(diffs[not variant]),
-                       "check_vector_assumed": "repaired" if variant else "pinned",
+                       "differing_cases": len(diffs[variant]), "differing_cases_by_checks_vector": {v: len(d) for v, d in sorted(diffs.items(), key=lambda kv: len(kv[1]))[:6]},
+                       "check_vector_assumed": vec_name(variant),
                        "first_case": {"argv": g["impl"][j][7], "input": g["input"], "fault": g["faults"][j]},
                        "implementation": g["impl"][j][0], "model": cmpo,
                        "implementation_calls": " ".join(g["impl"][j][1])[-1500:], "model_calls": vout.split("|")[-1].replace("_", " ")[-1500:],
@@ -646,7 +666,7 @@ def run(chk):
     chk.count("faulted-runs", total + 1, nontriv, samples)
     chk.cov["parts"]["faulted-runs"]["distribution"] = dist
     chk.cov["parts"]["faulted-runs"]["scenario_x_input"] = ["%s/%s:%d ops" % (g["scen"], g["input"], g["sc"].nops) for g in groups if "sc" in g]
-    chk.cov["check_vector_observed"] = "repaired (proposed_fixes/D2_output_errors.diff)" if variant else "pinned (fflush/fclose/stream state not looked at)"
+    chk.cov["check_vector_observed"] = vec_name(variant)
     chk.cov["stdio_buffer_size"] = B
     chk.cov["rule"] = ("for each scenario x input the fault-free run under the shim gives the write calls; then one run of the real binary per fault: "
                        "full@k for every operation number k (quick: every non-write operation, its neighbours and a sample of the writes, at most %s per group), "
